@@ -1014,6 +1014,14 @@ def gen_request(rng, need_empty_uri, keys_h=(), keys_p=()):
         params[rng.choice(PAR_KEYS + list(keys_p))] = C.rbytes(rng, rng.randrange(0, 4))
     for _ in range(rng.randrange(0, 3)):
         headers[rng.choice(HDR_KEYS + DECO_HN + list(keys_h))] = C.rbytes(rng, rng.randrange(0, 4))
+    # names of the program's own placements in ANOTHER letter case already present in the initial request: HTTP maps here are plain
+    # byte-keyed dicts (b"cookie" and b"Cookie" are two keys), and so are parameter names
+    for k in list(keys_h):
+        if rng.random() < 0.2 and k.swapcase() != k:
+            headers[k.swapcase()] = C.rbytes(rng, 2)
+    for k in list(keys_p):
+        if rng.random() < 0.2 and k.swapcase() != k:
+            params[k.swapcase()] = C.rbytes(rng, 2)
     return {"kind": "Q", "method": rng.choice([b"GET", b"POST", b""]), "uri": uri, "params": params, "headers": headers,
             "body": rng.choice([b"", b"old-body"])}
 
